@@ -54,10 +54,11 @@ where
         };
 
         let low_ptype_bits: u8 = reader.read_bits(5)?;
+        // Bit 9 of PTYPE: "0" INTRA (I-picture), "1" INTER (P-picture)
         let mut r#type = if low_ptype_bits & 0x10 != 0 {
-            PictureTypeCode::IFrame
-        } else {
             PictureTypeCode::PFrame
+        } else {
+            PictureTypeCode::IFrame
         };
 
         if low_ptype_bits & 0x08 != 0 {
